@@ -44,3 +44,11 @@ CLAIMS["C12"] = (
     "about the templates; the range-collapse option (arithmetic over code points) is not decided.",
     "Trusted: the normalisation maps in rules/c12.py (each rewrites only the construct the option is documented to change); flag resolution "
     "invariants (implications/exclusions) used to discard impossible valuations are checked under C19.")
+CLAIMS["C17"] = (
+    "dispatch/guard analysis of the front end + emission-path rules over end() templates + builder-chain recognition for End transitions",
+    "Static: the `end` pattern is gated by EOF_SUPPORT and end() exists under the same atom; the byte-test generator never compares against End; "
+    "inverted classes and the wildcard route (excluded | End) to the no-match path unconditionally and EndMatch consumes on End only; end()'s "
+    "per-state template takes state[End], renders it with from_end=True and returns DONE iff the state reached is accepting, never following an "
+    "error-handling move out of an accepting state; end-context transition bodies obey their rows and their gotos have labels. Generator-level facts "
+    "for all programs; which actions sit on End transitions is a DFA-level fact and not decided. Found and repaired F-15, F-23 (and F-03 under C11).",
+    "Trusted: line classifier; DFState.__getitem__'s Else fallback (checked structurally). Not decided: DFA-level placement of End transitions/actions.")
